@@ -95,6 +95,15 @@ def roundtrip(ctx, rep):
         ag.set_local_optimization_params(consts)
         s0, c0 = stack_of(ag)
         text = ag.get_formatted_string("sympy")
+        if L and rng.random() < 0.3:
+            # print, re-fit (new constants through set_local_optimization_params, the stack untouched), print again: the second
+            # string must denote the equation with its NEW constants
+            str(ag)
+            consts = [c + rng.choice([-1.25, 0.5, 2.0]) for c in consts]
+            ag.set_local_optimization_params(consts)
+            s0, c0 = stack_of(ag)
+            text = ag.get_formatted_string("sympy")
+            rep.count("roundtrip", "printed, constants replaced, printed again")
         const_strings.update(str(c) for c in ag.constants if math.isfinite(c))
         raw_literals = None
         for use_simp in (False, True):
